@@ -42,7 +42,7 @@ CLAUSES = {
     "angular separation = dot-product value (cos theta = sin d1 sin d2 + cos d1 cos d2 cos da), 0..180, symmetric":
         "proved [ideal, C05_separation: exact expression of the code, hc = 1 - h for exactly that expression, cosine rule, range, symmetry; all angles in (-360,360)]; binary64 1e-9 deg for 1e-7..179.999 deg: unproved (searched against a 60-digit reference)",
     "relative position angle = cross/dot-product value; antisymmetric":
-        "proved [ideal, C05_position_angle: exact expression of the code; delta-alpha in [-180,180] with zero rounding term for right ascensions in [0,360) and congruent to a1-a2 mod 360 always; both x forms = u1.north2; equals Meeus' quotient form for cos d1 > 0; negates when the two RIGHT ASCENSIONS are exchanged (declinations kept, cos d1 sin da <> 0): that is what 'antisymmetric' is taken to mean; the exchange of the two BODIES is not a negation on the sphere and no theorem claims it]; binary64 1e-9 deg: unproved, searched for every direction incl. exact poles against a 60-digit reference (at an exact pole 'north' is the limit along the meridian of the stated right ascension: body 1 at the north/south pole gives 0/180 deg, body 2 at a pole gives the direction of body 1's meridian - the value of the formula, accepted because the reference evaluates the same limit exactly); searched additionally: RA exchange negates, and body exchange: P12 and P21 are the two ends of one great-circle arc (t1 = -(t2 cos s - u2 sin s), convergence of the meridians included) to 1e-9 deg ( known finding position-angle-value-near-pole: both |delta| > 89.999 deg and deviation <= 1e-6 deg)",
+        "proved [ideal, C05_position_angle: exact expression of the code; delta-alpha in [-180,180] with zero rounding term for right ascensions in [0,360) and congruent to a1-a2 mod 360 always; both x forms = u1.north2; equals Meeus' quotient form for cos d1 > 0; negates when the two RIGHT ASCENSIONS are exchanged (declinations kept, cos d1 sin da <> 0): that is what 'antisymmetric' is taken to mean; the exchange of the two BODIES is not a negation on the sphere and no theorem claims it]; binary64 1e-9 deg: unproved, searched for every direction incl. exact poles against a 60-digit reference (at an exact pole 'north' is the limit along the meridian of the stated right ascension: body 1 at the north/south pole gives 0/180 deg, body 2 at a pole gives the direction of body 1's meridian - the value of the formula, accepted because the reference evaluates the same limit exactly); searched additionally: RA exchange negates, and body exchange: P12 and P21 are the two ends of one great-circle arc (t1 = -(t2 cos s - u2 sin s), convergence of the meridians included) to 1e-9 deg ( known finding position-angle-value-near-pole: both |delta| > 89.999 deg and deviation <= 2e-5 deg)",
     "circle_diameter between the largest separation a and 2a/sqrt(3)": "proved [ideal, C05_circle_closed_form + C05_circle_bounds + C05_circle_geometry: for any three separations in 0..180 (abstracted; their values are C05_separation) the code selects the largest as a, applies a or 2abc/sqrt((a+b+c)(a+b-c)(b+c-a)(a+c-b)) according to a >= sqrt(b^2+c^2), and a <= result <= 2a/sqrt(3)]; binary64 searched",
     "straight_line (angle between the great circles / distance from the great circle)": "unproved (searched against a cross-product reference); correspondence bit-exact",
     "binary64 rounding of all the above": "unproved (searched with the property's tolerances; correspondence is bit-exact with traced libm); there is no binary64 theorem for this property",
@@ -305,10 +305,10 @@ def exchange_defect(a1, d1, a2, d2, p12, p21):
 
 
 def pa_regime(d1, d2, dev):
-    """known finding C05/position-angle-value-near-pole: both bodies within a millidegree of a
-    pole (cos(delta) from radians next to pi/2) and the deviation small; everything else is
-    reported under the generic key"""
-    if min(abs(d1), abs(d2)) > 89.999 and dev <= 1e-6: return "-near-pole"
+    """known finding C05/position-angle-value-near-pole: BOTH bodies at |declination| > 89.999 deg
+    (cos(delta) from radians next to pi/2) and deviation <= 2e-5 deg; everything else (one body
+    in the cap, larger deviations) is reported under the generic key at the literal 1e-9 deg"""
+    if min(abs(d1), abs(d2)) > 89.999 and dev <= 2e-5: return "-near-pole"
     return ""
 
 
